@@ -29,14 +29,14 @@ MANIFEST = dict(
          "s = 1 / min(distance, d) / distance for discount 0 / finite / inf (0 means no discount), firm = over + under for all "
          "inputs, NaN propagation, the per-case value is the weighted sum over thresholds, and with 'lower' it coincides with the "
          "weighted sum of the Murphy quantile / Huber(a=d) / expectile elementary scores computed by murphy_impl.py's kernels "
-         "(with 'upper' and no discount: their left limit); a risk-matrix case is the double sum of weight*p (forecast at/above "
+         "(with 'upper': their left limit theta -> t from below, for every discount kind); a risk-matrix case is the double sum of weight*p (forecast at/above "
          "p, event absent) and weight*(1-p) (below p, event present), NaN anywhere gives NaN (skipna=False read off the source); "
          "matrix_weights_to_array labels row i with the i-th largest threshold for any order of the supplied coordinates.",
     note="Trusted: Lean kernel; py2lean translator; SV.Fl (no rounding); hand model of the firm loop/sum/mean, of the risk-matrix "
          "reduction, of matrix_weights_to_array and of _scaling_to_weight_matrix (differential correspondence only). "
-         "_scaling_to_weight_matrix has no Lean theorem: it is compared with the literal model and with a declarative "
-         "staircase-corner oracle; it loses level crossovers when rows-1 > number of levels (notes/C12.md N1, tagged, not failed). "
-         "'upper' with discounting is checked on the implementation only (affine extrapolation of murphy_score). "
+         "_scaling_to_weight_matrix: only shape and non-negativity are proved (about the literal model); its content is compared with "
+         "the model and with a declarative staircase-corner oracle; it loses level crossovers when rows-1 > number of levels "
+         "(notes/C12.md N1: theorem scaling_tall_matrix_counterexample; tagged in the evidence, not failed). "
          "weights= (apply_weights) belongs to C03.",
     technique="Lean 4 theorems over translator-regenerated kernels (two modules tied to a third through C11) + hand model; "
               "differential correspondence; exact-rational Spec oracle; relation FIRM = sum w * murphy_score between implementation runs",
